@@ -64,7 +64,7 @@ def rerun_case(rep, drv, spec, rng):
 	kernel_case(rep, drv, spec2, net_objs=(py['net'], py['objs']), stream='cost-kernel(second run after changing rates)')
 
 
-def trials_case(rep, rng):
+def trials_case(rep, rng, corpus=None):
 	"""run_multiple_trials: mean of per-trial averages and SEM (ddof 0) of the totals the simulator returned."""
 	from stockpyl import sim
 	import numpy as np
@@ -72,9 +72,15 @@ def trials_case(rep, rng):
 	mean = rng.randint(3, 9); T = rng.randint(3, 10); K = rng.randint(2, 5); seed = rng.randint(1, 999)
 	net = single_stage_system(holding_cost=rng.choice([1, 2]), stockout_cost=rng.choice([4, 10]), demand_type='P', mean=mean,
 							  policy_type='BS', base_stock_level=mean + rng.randint(0, 3), lead_time=rng.randint(0, 2))
-	rec = []
+	if corpus:
+		# many trials: the per-trial seeds are a deterministic walk on 1..9999 and come round again (instances found by search on which a seed repeats
+		# within 30 trials); a repeated seed is a trial like any other
+		mean, T, K, seed = 4, 3, 30, corpus
+		net = single_stage_system(holding_cost=1, stockout_cost=4, demand_type='P', mean=4, policy_type='BS', base_stock_level=5, lead_time=1)
+	rec = []; seeds = []
 	orig = sim.simulation
 	def wrapped(*a, **k):
+		seeds.append(k.get('rand_seed'))
 		r = orig(*a, **k); rec.append(r); return r
 	sim.simulation = wrapped
 	try:
@@ -87,6 +93,8 @@ def trials_case(rep, rng):
 	wm = float(np.mean(avg)); ws = float(np.std(avg) / np.sqrt(len(avg)))
 	case = {'mean': mean, 'T': T, 'trials': K, 'seed': seed}
 	rep.case('trials', case, nontrivial=True)
+	if len(set(seeds)) < len(seeds):
+		rep.count('trials:a-per-trial-seed-repeats')
 	if len(rec) != K or abs(m - wm) > 1e-12 * max(1, abs(wm)) or abs(s - ws) > 1e-9 * max(1, abs(ws)):
 		rep.diff('trials', 'run_multiple_trials returned (%r,%r) but per-trial averages %r give (%r,%r)' % (m, s, avg, wm, ws), case, oracle=True)
 
@@ -104,6 +112,8 @@ def run(rep, drv):
 		kernel_case(rep, drv, simlib.gen_spec(rng, th, {'pcostfn': .6, 'pdis': .7}))
 	for k in range(300 if th else 40):
 		rerun_case(rep, drv, simlib.gen_spec(rng, th, {'pcostfn': 0}), rng)
+	for sd_ in (63, 51, 71):
+		trials_case(rep, random.Random(sd_), corpus=sd_)
 	for k in range(60 if th else 12):
 		trials_case(rep, rng)
 	# multi-product networks: products with their own rates and revenues, raw materials shared by several products and multi-sourced
